@@ -77,6 +77,14 @@ func matchFinding(fs []finding, prop, name string) *finding {
 	return nil
 }
 
+// propKinds restricts a property's check to the obligation kinds that carry
+// it, when its units are shared with other properties that discharge the
+// rest (C10 shares the units of C11/C12/C13/C16/C20: those checks discharge
+// the panic-freedom obligations; C10 is the frame/freshness view).
+var propKinds = map[string]map[string]bool{
+	"C10": {"frame": true, "post": true, "inv-entry": true, "inv-keep": true, "pre": true, "pre-recv": true, "cast": true, "cover": true, "lemma": true, "oncall": true},
+}
+
 func hasProp(ps []string, p string) bool {
 	for _, q := range ps {
 		if q == p {
@@ -153,7 +161,12 @@ func runCheck(p *vc.Program, prop, tier string) int {
 	}
 	lemmaObs := p.VerifyLemmas(prop)
 	for _, u := range units {
-		all = append(all, u.Obligations...)
+		for _, ob := range u.Obligations {
+			if kinds, ok := propKinds[prop]; ok && !kinds[ob.Kind] {
+				continue
+			}
+			all = append(all, ob)
+		}
 	}
 	all = append(all, lemmaObs...)
 	genS := time.Since(t0).Seconds()
